@@ -1,3 +1,4 @@
 package nbs
 
 const verifBoundN = 2
+const verifBoundJournalBytes = 12
